@@ -15,10 +15,15 @@ for p in sorted(glob.glob(os.path.join(os.path.dirname(__file__), "..", "seeded"
     if len(mech) > 160:
         mech = mech[:157] + "..."
     extra = m.get("strengthened")
-    rows.append((m["property"], name, summ, "caught" if cr.get("caught") else "MISSED", mech, extra or ""))
+    first = m.get("check_result_first")
+    status = "caught" if cr.get("caught") else "MISSED"
+    if first is not None and not first.get("caught") and cr.get("caught"):
+        status = "missed at first, caught after the extension"
+    rows.append((m["property"], name, summ, status, mech, extra or ""))
 print("| property | change | what was changed | quick check | mechanisms reported | check extended because of it |")
 print("|---|---|---|---|---|---|")
 for r in rows:
     print("| %s | %s | %s | %s | %s | %s |" % r)
 print()
-print("%d seeded changes, %d caught by the property's quick check." % (len(rows), sum(1 for r in rows if r[3] == "caught")))
+print("%d seeded changes; %d caught by the property's quick check as it stood when the change arrived, %d only after the check was extended, %d missed."
+      % (len(rows), sum(1 for r in rows if r[3] == "caught"), sum(1 for r in rows if r[3].startswith("missed at first")), sum(1 for r in rows if r[3] == "MISSED")))
